@@ -272,6 +272,15 @@ func runCheck(id, tier, repo string, seed int, writeBaseline bool) int {
 		fmt.Fprintf(os.Stderr, "engine error: no obligations generated for %s (vacuous check)\n", id)
 		return 3
 	}
+	// obligations pinned by a known finding are expected to stay open: do not spend the long timeouts on them
+	for _, ob := range all {
+		for i := range known.Findings {
+			kf := &known.Findings[i]
+			if kf.Kind == "known" && kf.Obligation != "" && baseName(ob.Name) == kf.Obligation {
+				ob.Short = true
+			}
+		}
+	}
 	solver := NewSolver(filepath.Join(verifDir, ".work"))
 	solver.Seed = seed
 	if tier == "thorough" {
